@@ -23,8 +23,8 @@ LM = "mir::lower::match_expr::<impl mir::lower::Lowerer<'_>>::"
 
 # function -> list of (earlier event, later event); event = (callee last segment, param name the argument must be rooted at or None)
 CHAINS = {
-    L + "binop": [(("expr", "l"), ("expr", "r"))],
-    L + "desugared_binop": [(("expr", "l"), ("expr", "r"))],
+    L + "binop": [(("expr", "l"), ("expr", "r")), (("assign_to_var", "l"), ("expr", "r"))],
+    L + "desugared_binop": [(("expr", "l"), ("expr", "r")), (("assign_to_var", "l"), ("expr", "r"))],
     L + "shortcircuit_binop": [(("expr", "l"), ("emit_switch", None)), (("emit_switch", None), ("new_block", None)), (("new_block", None), ("expr", "r"))],
     L + "if_else": [(("expr", "condition"), ("emit_switch", None)), (("emit_switch", None), ("block", "then")), (("emit_switch", None), ("block", "r#else"))],
     L + "r#while": [(("new_block", None), ("expr", "condition")), (("expr", "condition"), ("emit_switch", None)),
@@ -34,7 +34,7 @@ CHAINS = {
     L + "question_mark": [(("expr", "expr"), ("emit_switch", None)), (("emit_switch", None), ("return_value", None))],
     L + "r#return": [(("expr", "expr"), ("return_value", None))],
     L + "access": [(("expr", "expr"), ("assign_to_var", None))],
-    L + "normalized_function_call": [(("do_assign", "receiver"), ("extend", "arguments"))],
+    L + "normalized_function_call": [(("do_assign", "receiver"), ("closure-visit", "arguments"))],
     LM + "r#match": [(("expr", None), ("emit_switch", None))],
 }
 
@@ -92,6 +92,33 @@ def deps(b, defs, local, depth=0, seen=None):
     return out
 
 
+def closure_visit_events(F, b, defs, key_prefix):
+    """Blocks of calls that receive a closure whose body visits sub-expressions, iterating over `key_prefix`."""
+    out = []
+    for bi, t in mir.calls(b):
+        clos = None
+        for a in t["args"]:
+            if mir.is_place_op(a):
+                for d in defs.whole_defs(a[1][0]):
+                    if d[2] == "assign" and d[3]["rv"]["k"] == "agg" and d[3]["rv"].get("ak") == "closure":
+                        clos = d[3]["rv"]["def"]
+        if not clos:
+            continue
+        cb = F.body(clos)
+        if cb is None or not cb.mir or not any(hir.last(mir.callee(u)) in ("expr", "stmt", "block") for _, u in mir.calls(cb)):
+            continue
+        if key_prefix is None:
+            out.append(bi)
+            continue
+        ds = set()
+        for a in t["args"]:
+            if mir.is_place_op(a):
+                ds |= deps(b, defs, a[1][0]) | {mir.origin_key(b, defs, a[1])}
+        if any(x == key_prefix or x.startswith(key_prefix + ".") for x in ds):
+            out.append(bi)
+    return out
+
+
 def events(b, defs, callee_name, key_prefix):
     out = []
     for bi, t in mir.calls(b):
@@ -127,8 +154,8 @@ def rule_o1(F):
             if (e1[1] and k1 is None) or (e2[1] and k2 is None):
                 r.missing("%s parameter %s/%s" % (hir.last(fn), e1[1], e2[1]))
                 continue
-            ev1 = events(b, defs, e1[0], k1)
-            ev2 = events(b, defs, e2[0], k2)
+            ev1 = closure_visit_events(F, b, defs, k1) if e1[0] == "closure-visit" else events(b, defs, e1[0], k1)
+            ev2 = closure_visit_events(F, b, defs, k2) if e2[0] == "closure-visit" else events(b, defs, e2[0], k2)
             key = "%s: %s(%s) before %s(%s)" % (hir.last(fn), e1[0], e1[1] or "", e2[0], e2[1] or "")
             r.inst(key, {"fn": hir.last(fn), "first": [e1[0], e1[1], ev1], "then": [e2[0], e2[1], ev2]})
             if not ev1 or not ev2:
@@ -142,7 +169,7 @@ def rule_o1(F):
                     pass
             ok_any = any(any(x in dom[y] and x != y for x in ev1) for y in ev2)
             reversed_ = any(any(y in dom[x] and x != y for y in ev2) for x in ev1) and e1[0] == e2[0]
-            strict = e1[0] == "expr" and e2[0] in ("expr", "block")
+            strict = e1[0] in ("expr", "assign_to_var") and e2[0] in ("expr", "block")
             if strict:
                 bad = [y for y in ev2 if not any(x in dom[y] and x != y for x in ev1)]
                 if bad:
@@ -197,6 +224,84 @@ def rule_o1(F):
                         r.bad(b.path, "Value::BinOp wiring #%d" % n, relfile(b.file), s["line"], "Value::BinOp { left <- %s, right <- %s }: operands are swapped or mixed" % (sorted(dl), sorted(dr)))
         if n < 3:
             r.missing("3 Value::BinOp constructions in binop (found %d)" % n)
+    return r
+
+
+VALUE_TY = "mir::Value"
+MATERIALIZE = {"assign_to_var", "do_assign", "emit_assign", "return_value", "make_enum", "normalized_function_call", "call_runtime"}
+
+
+def rule_o4(F):
+    r = RuleResult("C08.O4", "a lazily lowered operand (mir::Value) is stored before the next sub-expression is visited, and never escapes a closure un-stored", floor=20)
+    bodies = [b for b in F.bodies_in(["src/mir/lower.rs", "src/mir/lower/match_expr.rs"]) if b.mir]
+    for b in bodies:
+        locs = b.mir["locals"]
+        defs = None
+        visits = [(bi, t) for bi, t in mir.calls(b) if mir.callee(t).startswith("mir::lower::") and hir.last(mir.callee(t)) in ("expr", "block_expr", "stmt", "block")]
+        if not visits:
+            continue
+        dom = None
+        for (xb, xt) in visits:
+            d = xt["dest"]
+            if len(d) != 1 or locs[d[0]]["ty"] != VALUE_TY:
+                continue
+            if defs is None:
+                defs = mir.Defs(b)
+                dom = mir.dominators(b)
+            v = d[0]
+            # locals that carry the value (moves, tuple/aggregate packing)
+            carriers = {v}
+            changed = True
+            while changed:
+                changed = False
+                for l, ds in defs.defs.items():
+                    if l in carriers:
+                        continue
+                    for dd in ds:
+                        if dd[2] != "assign":
+                            continue
+                        rv = dd[3]["rv"]
+                        ops = []
+                        for k in ("o",):
+                            if k in rv:
+                                ops.append(rv[k])
+                        ops += rv.get("ops", [])
+                        if any(mir.is_place_op(o) and o[1][0] in carriers for o in ops):
+                            carriers.add(l)
+                            changed = True
+            consumers = []
+            for bi, t in mir.calls(b):
+                if bi == xb:
+                    continue
+                if any(mir.is_place_op(a) and a[1][0] in carriers for a in t["args"]):
+                    consumers.append(bi)
+            escapes = 0 in carriers and b.def_kind == "Closure"
+            what = "?"
+            if len(xt["args"]) > 1 and mir.is_place_op(xt["args"][1]):
+                what = mir.origin_key(b, defs, xt["args"][1][1])
+            key = "%s visit@%s" % (hir.last(b.path) if b.def_kind != "Closure" else b.path.split("::")[-2] + "::closure", what)
+            r.inst(key + " #%d" % len(r.instances), {"fn": b.path, "line": xt["line"], "consumers": len(consumers), "escapes_closure": escapes})
+            if escapes:
+                r.bad(b.path, "value escapes closure", relfile(b.file), xt["line"],
+                      "the closure returns the un-stored result of visiting a sub-expression: all elements are visited first and read later, so a later element can change the value of an earlier one")
+                continue
+            reach_x = mir.reachable_from(b, xb)
+            for (yb, yt) in visits:
+                if yb == xb or yb not in reach_x:
+                    continue
+                # is the value still pending at Y?  (no consumer dominates Y after X)
+                if any(c in dom[yb] and c in reach_x for c in consumers):
+                    continue
+                # and is it consumed after Y?
+                reach_y = mir.reachable_from(b, yb)
+                if not any(c in reach_y for c in consumers):
+                    continue
+                # loops: X reachable from Y through a back edge that re-defines v is fine
+                if xb in reach_y and not any(c in reach_y and xb not in mir.reachable_from(b, c) for c in consumers):
+                    continue
+                r.bad(b.path, "value held across visit", relfile(b.file), yt["line"],
+                      "the result of visiting one sub-expression (line %s) is still un-stored while another sub-expression is visited (line %s): a read of a variable on the left is performed after the side effects of the right" % (xt["line"], yt["line"]))
+                break
     return r
 
 
@@ -331,4 +436,4 @@ def rule_o3(F):
 
 def rules(ctx):
     F = ctx["F"]
-    return [rule_o1(F), rule_o2(F), rule_o3(F)]
+    return [rule_o1(F), rule_o2(F), rule_o3(F), rule_o4(F)]
